@@ -289,6 +289,51 @@ def same_text_two_ids_case(r, acc, origin):
                            'outputs': {}, 'origin': origin})
 
 
+def literal_of_another_place_case(r, acc, origin):
+    """Inside one word, a literal expected at one place begins with the literal expected at a later place
+    (`(x|abc)ab`): each place must be matched against the literals expected *there*."""
+    short = r.choice(['ab', 'on', 'v1'])
+    long_ = short + r.choice(['c', 'x', '-z'])
+    first = r.choice(['x', 'q', 'k7'])
+    pre = r.choice(['', 'k=', '--o:'])
+    parts = ([gast.lit(pre)] if pre else []) + [gast.alt(gast.lit(first), gast.lit(long_)), gast.lit(short)]
+    stmts = [gast.call('cmd', gast.seq(('word', tuple(parts)), gast.lit('tail')))]
+    text, _, _ = gast.print_grammar(stmts)
+    rc, out, err = comp.compile_text(text, 'bash')
+    if rc != 0:
+        acc.count('not_accepted')
+        return
+    M = refrun.Machine(stmts, {}, 'bash')
+    full1, full2 = pre + first + short, pre + long_ + short
+    queries = [{'words': ['cmd', full1, ''], 'cword': 2, 'wb': ''}, {'words': ['cmd', full2, ''], 'cword': 2, 'wb': ''},
+               {'words': ['cmd', pre + first], 'cword': 1, 'wb': ''}, {'words': ['cmd', pre + first + short[:1]], 'cword': 1, 'wb': ''},
+               {'words': ['cmd', full1 + 'x', ''], 'cword': 2, 'wb': ''}, {'words': ['cmd', full1, 'ta'], 'cword': 2, 'wb': ''}]
+    res = bashrun.run_session(out.decode('utf-8'), 'cmd', queries)
+    if res['timed_out'] or res['source_rc'] != 0:
+        acc.inconclusive.append('bash session failed')
+        return
+    for q, ob in zip(queries, res['results']):
+        if ob is None:
+            continue
+        acc.evals += 1
+        acc.count('literal_of_another_place_queries')
+        words = q['words'][1:]
+        ref = M.run(words)
+        exp = ref['expected']
+        obs = {c[:-1] if c.endswith(' ') else c for c in ob['reply']}
+        acc.seen((text, words, ''))
+        if obs != exp:
+            sig = 'candidates-differ'
+            if len(words) == 2 and words[0] in (full1, full2) and obs == set() and ob['rc'] == 1:
+                # the complete word is legal (the script itself offers it) but is not recognised: the loop
+                # stopped at the longer literal of the earlier place
+                sig = 'known-deviation:within-word-literal-of-another-place'
+            acc.violation({'sig': sig, 'grammar': text, 'shell': 'bash',
+                           'query': {'words': q['words'], 'cword': q['cword'], 'wordbreaks': ''},
+                           'expected': sorted(exp), 'observed': sorted(obs), 'rc': ob['rc'], 'stmts': stmts,
+                           'outputs': {}, 'origin': origin})
+
+
 def shared_definition_grammar(r, ledger):
     """One definition (literals, a command, a word) referenced from several `||` branches of different index and
     from outside any `||`: every reference must carry the level of its own branch."""
@@ -383,6 +428,8 @@ def run_job(job, acc):
     r = random.Random(s)
     if s % 16 == 0:
         same_text_two_ids_case(r, acc, 'same-text-two-descriptions seed=%d' % s)
+    if s % 16 == 8:
+        literal_of_another_place_case(r, acc, 'literal of another place seed=%d' % s)
     if s % 4 == 1:
         for i in range(2):
             ledger = CmdLedger()
